@@ -86,11 +86,23 @@ func c05Perm(s *stack.Snapshot, perm []int) error {
 
 type c05Case struct {
 	D    DumpM
+	Race *RaceM `json:",omitempty"`
 	Perm []int
 }
 
+func (c *c05Case) snapshot() (*stack.Snapshot, error) {
+	if c.Race != nil {
+		s, err := scanAloneOpts(c.Race.Print(), plainOpts())
+		if s == nil {
+			return nil, fmt.Errorf("generated race report does not parse: %v", err)
+		}
+		return s, nil
+	}
+	return parseDump(&c.D, plainOpts())
+}
+
 func c05Oracle(c c05Case) error {
-	s, err := parseDump(&c.D, plainOpts())
+	s, err := c.snapshot()
 	if err != nil {
 		return err
 	}
@@ -106,6 +118,16 @@ func c05Oracle(c c05Case) error {
 var c05Rand = Check[c05Case]{
 	Prop: "C05", Name: "random",
 	Gen: func(t *rapid.T) c05Case {
+		if oneIn(t, 8, "raceSnapshot") {
+			r := genAggRace(t)
+			c := c05Case{Race: &r}
+			ids := make([]int, len(r.Ops))
+			for i := range ids {
+				ids[i] = i
+			}
+			c.Perm = rapid.Permutation(ids).Draw(t, "perm")
+			return c
+		}
 		c := c05Case{D: genAggDump(t, 40)}
 		ids := make([]int, len(c.D.Gs))
 		for i := range ids {
@@ -116,9 +138,12 @@ var c05Rand = Check[c05Case]{
 	},
 	Oracle: c05Oracle,
 	Obs: func(c c05Case) Obs {
-		s, err := parseDump(&c.D, plainOpts())
+		s, err := c.snapshot()
 		nt := false
 		var cl []string
+		if c.Race != nil {
+			cl = append(cl, "race_snapshot")
+		}
 		if err == nil {
 			cross, big, _ := c05Check(s)
 			nt = cross && big
@@ -129,7 +154,11 @@ var c05Rand = Check[c05Case]{
 				cl = append(cl, "bucket_ge_3")
 			}
 		}
-		return Obs{Nontrivial: nt, Digest: digestBytes(c.D.Print()), Classes: cl, Sample: quoteShort(truncBytes(c.D.Print(), 900))}
+		in := c.D.Print()
+		if c.Race != nil {
+			in = c.Race.Print()
+		}
+		return Obs{Nontrivial: nt, Digest: digestBytes(in), Classes: cl, Sample: quoteShort(truncBytes(in, 900))}
 	},
 }
 
@@ -174,6 +203,7 @@ func singleDiffUniverse() ([]GM, []string) {
 	add("dots", func(g *GM) { g.Frames[1].Args.Dots = true })
 	add("dots nested", func(g *GM) { g.Frames[0].Args.Items[2].Agg.Dots = true })
 	add("too large", func(g *GM) { g.Frames[0].Args.Items[1] = ArgM{TooLarge: true} })
+	add("non-pointer value zero", func(g *GM) { g.Frames[0].Args.Items[1].Val = 0 })
 	add("non-pointer value", func(g *GM) { g.Frames[0].Args.Items[1].Val = 8 })
 	add("non-pointer value nested", func(g *GM) { g.Frames[0].Args.Items[2].Agg.Items[1].Val = 4 })
 	add("pointer value", func(g *GM) { g.Frames[0].Args.Items[0].Val = 0xc000020000 })
@@ -299,7 +329,7 @@ func TestC05(t *testing.T) {
 	st.count(cnt, nt)
 	st.class("single_difference_tuples", cnt)
 	st.exhaustive(fmt.Sprintf("all ordered pairs and triples over a universe of %d goroutines differing from a base in exactly one attribute (%v) x 4 levels", len(u), names), cnt)
-	st.sample(map[string]any{"single_difference_triple": []string{names[0], names[20], names[27]}})
+	st.sample(map[string]any{"single_difference_triple": []string{names[0], names[20], names[28]}})
 	a := c05Rand
 	a.Checks = n(2500, 60000)
 	a.Run(t)
